@@ -24,9 +24,11 @@ THEOREMS = [
     "Mesa.Batch.C13_degenerate_limits",
     "Mesa.Batch.C13_run_rows_exact",
     "Mesa.Batch.C13_batch_run_exact",
+    "Mesa.Batch.C13_late_completion",
 ]
 COUNTS = {"quick": 1500, "thorough": 30000}
 TRUSTED = [
+    "the completion order `late=j` is realised by runtime behaviour no model expresses: the scripted model of that design point waits in its constructor (in the worker process) until a run of another design point has started, plus 0.4 s; if the machine is so loaded that this does not reorder the results the run is merely an in-order one (never a false alarm); the model side is Batch.lateOrder, a permutation of the run list",
     "multiprocessing (spawn) + pickle hand every run tuple to exactly one worker and every result list back once, in some order; modelled as a permutation of the run list (exercised with number_processes 2 and 3 on every run)",
     "itertools.product enumerates the cartesian product with the first factor slowest; isinstance/iteration decide str / list-tuple-set / other iterable / non-iterable as the harness labels the generated parameter values",
     "the user's model class is a scripted mesa.Model whose constructor and step are op lists of the DataCollector model (int positions may be fed from kwargs); arbitrary user code is not modelled",
@@ -43,7 +45,7 @@ RULE = ("random scripted model classes (constructor / step bodies of DataCollect
         "stepping, model.agents reordered in place inside step in 12% of the classes; with and without agent reporters) x random parameter dicts (0-3 parameters: scalars incl. None and floats, strings, lists / tuples "
         "incl. empty and with unhashable / tuple / empty-string values, ranges incl. empty, dicts, one-shot iterators / generators in 6% of the parameters) "
         "x iterations 1-3 x max_steps 0-6 x period {-1, 1, 2, 3, 0, 7, 9, 50}; display_progress on in 15% of the runs; 5% of the model classes have reporters "
-        "that raise while an attribute is missing; number_processes 1 in the generated stream, 2 and 3 (spawn) in the built-in stream; non-trivial = some batch_run returned "
+        "that raise while an attribute is missing; number_processes 1 in the generated stream, 2 and 3 (spawn) in the built-in stream, there in 70% of the runs with a worker completion order other than the submission order (`late=j`: the runs of one design point finish after a run submitted later); non-trivial = some batch_run returned "
         ">= 2 rows; distinct = distinct op-line sequences (sha1)")
 
 run_impl = CC.run_impl
@@ -83,6 +85,8 @@ def tags(sc, obs):
             yield "max_steps:" + w[2]
             if w[0] == "runp":
                 yield "nproc:" + w[4]
+                if len(w) > 5 and w[5].startswith("late="):
+                    yield "nproc:late-completion"
             if w[-1] == "prog":
                 yield "run:display_progress"
             if o == "ok":
